@@ -5,7 +5,7 @@ declare -A OWN=(
  [revert_D1_tracer_dispatch]="C04 C14" [revert_D2_rhf_energy_unrestricted]="C02" [revert_D3D4_multislater]="C01 C11" [revert_D4_multislater_restricted_ref]="C01"
  [revert_D5_same_spin_green]="C10" [revert_D6_cpmc_bare_onebody]="C10" [revert_D7_nosr_norot_trial_arg]="C12 C08" [revert_D8_cholesky_last_vector]="C17"
  [revert_D9a_grid_ly2_ctor]="C20" [revert_D9b_lattice_roundtrip]="C20" [revert_D10ab_cpmc_nan]="C09" [revert_D10b_cpmc_extinct_nan]="C09"
- [revert_D11_openshell_init_refusal]="C13" [revert_D12_rhf_rdm1_conj]="C01 C13" [c07_noabs_jit]="C07" [c07_mpi_uhf_dn_old_buffer]="C07" [c08_no_refresh_after_sr]="C08" [c08_no_refresh_after_qr]="C08")
+ [revert_D11_openshell_init_refusal]="C13" [revert_D12_rhf_rdm1_conj]="C01 C13" [c07_noabs_jit]="C07" [c07_mpi_uhf_dn_old_buffer]="C07" [c08_no_refresh_after_sr]="C08" [c08_no_refresh_after_qr]="C08" [fp_driver_key_reuse]="C05" [fp_driver_unweighted_mean]="C05")
 tmp=$(mktemp)
 echo "{" > $tmp
 first=1
